@@ -46,15 +46,16 @@ VARIABLES
   moves,   \* history of leader changes: sequence of [tp, to, at]
   snaps,   \* snapshots applied by update, in order (index = serial number)
   pool,    \* [ready, err, base, groups, idle]  idle[g] = stack of idle connections of group g (0 = control)
-  disc,    \* discover loop: [pc, notify]  pc in {"ask", "sent", "got", "sleep"}
+  disc,    \* discover loop: [pc, first, notify, ok, meta]  pc in {"sleep", "conn", "sent", "got"}
   conns,   \* c -> [st, grp, peer, cur, reqq (requests written, not yet answered), wire (answers not yet read),
            \*       cut, failed, gclosed, peerDown]
   rq,      \* r -> [pc, d, snap, cancelled, result, legs]
   sent,    \* history: every leg that reached a broker
   served,  \* history: metadata answers served from the cache
-  budget   \* [moves, cancels, cuts, refresh, expire, closeidle] used so far
+  budget,  \* [moves, cancels, cuts, refresh, expire, closeidle] used so far
+  cf       \* configuration of the scenario: [boot, vtab, crange, mt (Transport.MetadataTopics)], constant within a behaviour
 
-vars == <<cl, moves, snaps, pool, disc, conns, rq, sent, served, budget>>
+vars == <<cl, moves, snaps, pool, disc, conns, rq, sent, served, budget, cf>>
 
 Parts == 0 .. NParts - 1
 TPs == { <<t, p>> : t \in Topics, p \in Parts }
@@ -65,14 +66,16 @@ Max(a, b) == IF a >= b THEN a ELSE b
 Min(a, b) == IF a <= b THEN a ELSE b
 Last(s) == s[Len(s)]
 Range(s) == { s[i] : i \in DOMAIN s }
+\* the elements of a finite set of integers in increasing order
+SetToSeqBy(X) == CHOOSE f \in [1 .. Cardinality(X) -> X] : \A x, y \in 1 .. Cardinality(X) : x < y => f[x] < f[y]
 SetToSeq(X) == CHOOSE f \in [1 .. Cardinality(X) -> X] : \A x, y \in 1 .. Cardinality(X) : x # y => f[x] # f[y]
 
 -----------------------------------------------------------------------------
 (* version selection: protocol.ApiKey.SelectVersion and transport.go connect *)
 Overlap(c, b) == Max(c[1], b[1]) <= Min(c[2], b[2])
 Select(api, b) ==
-  IF api \notin DOMAIN VTab[b] THEN 0                     \* not advertised: the zero value of the map
-  ELSE LET br == VTab[b][api]  cr == CRange[api] IN
+  IF b \notin DOMAIN cf.vtab \/ api \notin DOMAIN cf.vtab[b] THEN 0       \* not advertised: the zero value of the map
+  ELSE LET br == cf.vtab[b][api]  cr == cf.crange[api] IN
        IF Bug = "clientMax" THEN cr[2]
        ELSE IF cr[1] > br[2] THEN cr[1]                   \* broker too old: no common version
        ELSE IF cr[2] < br[2] THEN cr[2]
@@ -80,13 +83,16 @@ Select(api, b) ==
 Neg(c, api) == Select(api, conns[c].peer)
 
 (* the view of the cluster a metadata response carries *)
-View(c) == [alive |-> c.alive, ctrlr |-> c.ctrlr, topics |-> c.topics, ver |-> c.ver,
-            leader |-> [tp \in { x \in TPs : x[1] \in c.topics } |-> c.leader[tp]]]
+Asked(c) == IF cf.mt.on THEN c.topics \cap cf.mt.names ELSE c.topics
+View(c) == [alive |-> c.alive, ctrlr |-> c.ctrlr, topics |-> Asked(c), ver |-> c.ver,
+            leader |-> [tp \in { x \in TPs : x[1] \in Asked(c) } |-> c.leader[tp]]]
 NoSnap == [alive |-> {}, ctrlr |-> 0, topics |-> {}, ver |-> 0, leader |-> << >>]
 SnapOf(n) == IF n \in DOMAIN snaps THEN snaps[n] ELSE NoSnap
 Latest == Len(snaps)
 
-(* filterMetadataResponse: one entry per requested name, in request order *)
+(* filterMetadataResponse: one entry per requested name, in request order; without a filter: every cached topic *)
+Entry(snap, t) == [name |-> t, err |-> 0, leaders |-> [p \in Parts |-> snap.leader[<<t, p>>]]]
+AllOf(snap) == { Entry(snap, t) : t \in snap.topics }
 Filter(names, snap) ==
   IF Bug = "filterAll" THEN [ i \in 1 .. Cardinality(snap.topics) |-> "*" ]    \* every cached topic
   ELSE [ i \in DOMAIN names |->
@@ -128,20 +134,22 @@ Dest(r, i) ==
   Routed(SnapOf(rq[r].snap), ls[i], IF i > 1 THEN ls[i - 1] ELSE ls[i])
 
 Handed(l) == l.st \in {"sent", "ok", "fail"}
-\* sendRequest is called leg after leg by the calling goroutine; a coordinator leg waits for the answer before it
-NextLeg(r) ==
-  LET ls == rq[r].legs
-      cand == { i \in DOMAIN ls : ls[i].st = "todo" /\ \A j \in 1 .. i - 1 : Handed(ls[j]) } IN
-  IF cand = {} THEN 0 ELSE
-  LET i == CHOOSE x \in cand : TRUE IN
-  IF ls[i].cls \in {"coord", "txn"} /\ ls[i - 1].st \notin {"ok", "fail"} THEN 0 ELSE i
+\* sendRequest is called leg after leg by the calling goroutine (each call returns once the request is handed to a
+\* connection); the legs of a split request are sent in the iteration order of a Go map: any order;
+\* a coordinator leg waits for the answer of its FindCoordinator leg
+CanRoute(r, i) ==
+  LET ls == rq[r].legs IN
+  /\ i \in DOMAIN ls /\ ls[i].st = "todo"
+  /\ \A j \in DOMAIN ls : ls[j].st # "wait"
+  /\ rq[r].d.cls # "split" => \A j \in 1 .. i - 1 : Handed(ls[j])
+  /\ ls[i].cls \in {"coord", "txn"} => ls[i - 1].st \in {"ok", "fail"}
 
 -----------------------------------------------------------------------------
 NoConn == [st |-> "none", grp |-> 0, peer |-> 0, cur |-> <<0, 0>>, reqq |-> << >>, wire |-> << >>,
            cut |-> FALSE, failed |-> FALSE, gclosed |-> FALSE, peerDown |-> FALSE]
 NoReq == [pc |-> "new", d |-> [cls |-> "none"], snap |-> 0, cancelled |-> "no", result |-> [kind |-> "none"], legs |-> << >>,
           woke |-> FALSE]
-NoDisc == [pc |-> "ask", notify |-> {}, ok |-> FALSE, meta |-> NoSnap]
+NoDisc == [pc |-> "sleep", first |-> TRUE, notify |-> {}, ok |-> FALSE, meta |-> NoSnap]
 Tick(n) == IF Hist THEN n + 1 ELSE n
 NoBudget == [moves |-> 0, cancels |-> 0, cuts |-> 0, refresh |-> 0, expire |-> 0, closeidle |-> 0]
 
@@ -155,6 +163,7 @@ Init ==
   /\ rq = [r \in Reqs |-> NoReq]
   /\ sent = << >> /\ served = << >>
   /\ budget = NoBudget
+  /\ cf = [boot |-> Boot, vtab |-> VTab, crange |-> CRange, mt |-> [on |-> FALSE, names |-> {}]]
 
 FreeConn == { c \in Conns : conns[c].st = "none" \/ (~Hist /\ conns[c].st = "dead") }
 NewConn == CHOOSE c \in FreeConn : \A x \in FreeConn : c <= x
@@ -164,10 +173,12 @@ SetLeg(r, i, f) == [rq EXCEPT ![r].legs[i] = f]
 
 -----------------------------------------------------------------------------
 (* the calling goroutine: roundTrip *)
-Begin(r, d) ==
-  /\ rq[r].pc = "new" /\ d \in Menu[r]
+BeginWith(r, d) ==
+  /\ rq[r].pc = "new"
   /\ rq' = [rq EXCEPT ![r] = [NoReq EXCEPT !.pc = "wait", !.d = d, !.legs = LegsOf(d)]]
   /\ UNCHANGED <<cl, moves, snaps, pool, disc, conns, sent, served, budget>>
+
+Begin(r, d) == d \in Menu[r] /\ BeginWith(r, d)
 
 \* <-p.ready; grabState(): the snapshot the whole round trip is routed with
 GrabState(r) ==
@@ -180,21 +191,21 @@ GrabState(r) ==
 \* Metadata is answered from the snapshot by filterMetadataResponse
 ServeFromCache(r) ==
   /\ rq[r].pc = "run" /\ rq[r].d.cls = "cache"
-  /\ LET ans == Filter(rq[r].d.names, SnapOf(rq[r].snap)) IN
+  /\ LET ans == IF rq[r].d.all THEN AllOf(SnapOf(rq[r].snap)) ELSE Filter(rq[r].d.names, SnapOf(rq[r].snap)) IN
        /\ rq' = [rq EXCEPT ![r].pc = "done", ![r].result = [kind |-> "response", topics |-> ans]]
-       /\ served' = Append(served, [r |-> r, snap |-> rq[r].snap, names |-> rq[r].d.names, topics |-> ans])
+       /\ served' = Append(served, [r |-> r, snap |-> rq[r].snap, names |-> rq[r].d.names, all |-> rq[r].d.all, topics |-> ans])
   /\ UNCHANGED <<cl, moves, snaps, pool, disc, conns, sent, budget>>
 
 \* sendRequest: no broker for this leg (BrokerNotAvailable, no leader, failed FindCoordinator)
 RouteFail(r, i) ==
-  /\ rq[r].pc = "run" /\ i = NextLeg(r) /\ i # 0
+  /\ rq[r].pc = "run" /\ CanRoute(r, i)
   /\ LET d == Dest(r, i) IN d = -1 \/ (d > 0 /\ d \notin pool.groups)
   /\ rq' = SetLeg(r, i, [rq[r].legs[i] EXCEPT !.st = "fail"])
   /\ UNCHANGED <<cl, moves, snaps, pool, disc, conns, sent, served, budget>>
 
 \* grabConn: the most recently released idle connection of the group; c.reqs <- request
 RouteGrab(r, i, c) ==
-  /\ rq[r].pc = "run" /\ i = NextLeg(r) /\ i # 0
+  /\ rq[r].pc = "run" /\ CanRoute(r, i)
   /\ LET d == Dest(r, i) IN
        /\ d = 0 \/ d \in pool.groups
        /\ pool.idle[d] # << >> /\ c = Last(pool.idle[d])
@@ -205,7 +216,7 @@ RouteGrab(r, i, c) ==
 
 \* no idle connection: connect (dial, ApiVersions, SelectVersion) in a goroutine, the caller waits
 RouteConnect(r, i, c) ==
-  /\ rq[r].pc = "run" /\ i = NextLeg(r) /\ i # 0
+  /\ rq[r].pc = "run" /\ CanRoute(r, i)
   /\ FreeConn # {} /\ c = NewConn
   /\ LET d == Dest(r, i) IN
        /\ d = 0 \/ d \in pool.groups
@@ -214,8 +225,18 @@ RouteConnect(r, i, c) ==
   /\ rq' = SetLeg(r, i, [rq[r].legs[i] EXCEPT !.st = "wait", !.c = c])
   /\ UNCHANGED <<cl, moves, snaps, pool, disc, sent, served, budget>>
 
+\* no idle connection and the dial is refused (the broker is gone): nothing is left behind
+RouteConnectRefused(r, i) ==
+  /\ rq[r].pc = "run" /\ CanRoute(r, i)
+  /\ LET d == Dest(r, i) IN
+       /\ d = 0 \/ d \in pool.groups
+       /\ pool.idle[d] = << >>
+       /\ IF d = 0 THEN cf.boot \cap cl.alive = {} ELSE d \notin cl.alive
+  /\ rq' = SetLeg(r, i, [rq[r].legs[i] EXCEPT !.st = "fail"])
+  /\ UNCHANGED <<cl, moves, snaps, pool, disc, conns, sent, served, budget>>
+
 Waiting(r, i, c) == IF r = 0 THEN disc.pc = "conn" ELSE rq[r].pc = "run" /\ rq[r].legs[i].st = "wait" /\ rq[r].legs[i].c = c
-PeersOf(g) == IF g = 0 THEN Boot \cap cl.alive ELSE {g} \cap cl.alive
+PeersOf(g) == IF g = 0 THEN cf.boot \cap cl.alive ELSE {g} \cap cl.alive
 
 \* the connection is established and its version table negotiated with broker b; it is handed to the
 \* caller, or goes to the idle stack when the caller has gone (its context ended)
@@ -259,8 +280,13 @@ Answer(r, i, l, b) ==
     [] l.cls = "leader" -> [for |-> <<r, i>>, from |-> b, ok |-> (l.tp[1] \in cl.topics /\ cl.leader[l.tp] = b)]
     [] l.cls = "coord" -> [for |-> <<r, i>>, from |-> b, ok |-> (cl.coord = b)]
     [] l.cls = "txn" -> [for |-> <<r, i>>, from |-> b, ok |-> (cl.txn = b)]
-    [] l.cls = "ctrlr" -> [for |-> <<r, i>>, from |-> b, ok |-> (cl.ctrlr = b)]
+    [] l.cls = "ctrlr" -> [for |-> <<r, i>>, from |-> b,
+                           ok |-> (cl.ctrlr = b /\ (l.api = "CreateTopics" => rq[r].d.topic \notin cl.topics)
+                                               /\ (l.api = "DeleteTopics" => rq[r].d.topic \in cl.topics))]
     [] OTHER -> [for |-> <<r, i>>, from |-> b, ok |-> TRUE]
+
+SortedAlive == SetToSeqBy(cl.alive)
+NthAlive(p) == SortedAlive[(p % Len(SortedAlive)) + 1]
 
 \* the request reaches the broker, which answers it from the current cluster state
 Serve(c) ==
@@ -270,9 +296,12 @@ Serve(c) ==
        /\ sent' = IF r = 0 THEN sent
                   ELSE Append(sent, [r |-> r, i |-> i, api |-> l.api, cls |-> l.cls, tp |-> l.tp, dest |-> b, grp |-> conns[c].grp,
                                      c |-> c, ver |-> Neg(c, l.api), snap |-> rq[r].snap, prev |-> IF i > 1 THEN rq[r].legs[i - 1] ELSE l])
-       \* CreateTopics at the controller creates the topic
+       \* CreateTopics at the controller creates the topic (leaders round-robin over the brokers), DeleteTopics removes it
        /\ IF r # 0 /\ l.api = "CreateTopics" /\ cl.ctrlr = b /\ rq[r].d.topic \notin cl.topics
-            THEN cl' = [cl EXCEPT !.topics = @ \cup {rq[r].d.topic}, !.ver = @ + 1]
+            THEN cl' = [cl EXCEPT !.topics = @ \cup {rq[r].d.topic}, !.ver = @ + 1,
+                                  !.leader = [tp \in TPs |-> IF tp[1] = rq[r].d.topic THEN NthAlive(tp[2]) ELSE @[tp]]]
+            ELSE IF r # 0 /\ l.api = "DeleteTopics" /\ cl.ctrlr = b /\ rq[r].d.topic \in cl.topics
+            THEN cl' = [cl EXCEPT !.topics = @ \ {rq[r].d.topic}, !.ver = @ + 1]
             ELSE UNCHANGED cl
   /\ UNCHANGED <<moves, snaps, pool, disc, rq, served, budget>>
 
@@ -328,18 +357,24 @@ Settled(r) ==
   \/ AllResolved(r)
   \/ rq[r].d.cls \in {"coord", "txn"} /\ rq[r].legs[1].st = "fail"
 
+Failed(r) == IF rq[r].d.cls = "split" THEN AllFailed(r) ELSE AnyFailed(r)
+Outcome(r) ==
+  LET ls == rq[r].legs IN
+  IF Failed(r) THEN [kind |-> "error", why |-> "leg"] ELSE [kind |-> "response", legs |-> [i \in DOMAIN ls |-> ls[i].resp]]
+\* a successful CreateTopics is followed by a forced refresh of the metadata before the call returns
+NeedsRefresh(r) == ~Failed(r) /\ rq[r].d.api = "CreateTopics" /\ Last(rq[r].legs).resp.ok
+
 AwaitReturn(r) ==
   /\ rq[r].pc = "run" /\ rq[r].d.cls # "cache"
   /\ \/ /\ rq[r].cancelled # "no"
         /\ rq' = [rq EXCEPT ![r].pc = "done", ![r].result = [kind |-> "ctxerr"]]
-     \/ /\ Settled(r)
-        /\ LET ls == rq[r].legs
-               failed == IF rq[r].d.cls = "split" THEN AllFailed(r) ELSE AnyFailed(r)
-               res == IF failed THEN [kind |-> "error", why |-> "leg"]
-                      ELSE [kind |-> "response", legs |-> [i \in DOMAIN ls |-> ls[i].resp]] IN
-           IF ~failed /\ rq[r].d.api = "CreateTopics" /\ Last(ls).resp.ok
-             THEN rq' = [rq EXCEPT ![r].pc = "refresh", ![r].result = res]
-             ELSE rq' = [rq EXCEPT ![r].pc = "done", ![r].result = res]
+     \/ /\ Settled(r) /\ ~NeedsRefresh(r)
+        /\ rq' = [rq EXCEPT ![r].pc = "done", ![r].result = Outcome(r)]
+  /\ UNCHANGED <<cl, moves, snaps, pool, disc, conns, sent, served, budget>>
+
+AwaitRefresh(r) ==
+  /\ rq[r].pc = "run" /\ rq[r].d.cls # "cache" /\ Settled(r) /\ NeedsRefresh(r)
+  /\ rq' = [rq EXCEPT ![r].pc = "refresh", ![r].result = Outcome(r)]
   /\ UNCHANGED <<cl, moves, snaps, pool, disc, conns, sent, served, budget>>
 
 \* the context of the call ends: by cancellation, or by a deadline (which the connection carries too)
@@ -366,11 +401,9 @@ ReturnCancelled(r) ==
 \* refreshMetadata after CreateTopics: wake the discover loop, wait for its notification, look for the topic
 Wake(r) ==
   /\ rq[r].pc = "refresh" /\ disc.pc = "sleep" /\ ~rq[r].woke
-  /\ budget.refresh < MaxRefresh
-  /\ disc' = [disc EXCEPT !.pc = "ask", !.notify = @ \cup {r}]
-  /\ budget' = [budget EXCEPT !.refresh = Tick(@)]
+  /\ disc' = [disc EXCEPT !.notify = @ \cup {r}]
   /\ rq' = [rq EXCEPT ![r].woke = TRUE]
-  /\ UNCHANGED <<cl, moves, snaps, pool, conns, sent, served>>
+  /\ UNCHANGED <<cl, moves, snaps, pool, conns, sent, served, budget>>
 
 \* notified: the topic is in the new snapshot (done) or not yet (back off, wake again)
 RefreshDone(r) ==
@@ -382,20 +415,33 @@ RefreshDone(r) ==
 
 -----------------------------------------------------------------------------
 (* the discover loop: metadata request on the control group, update, sleep *)
+\* the loop asks at once when it starts and when it was woken; otherwise when its (randomised) TTL timer fires
+Due == disc.pc = "sleep" /\ (disc.first \/ disc.notify # {} \/ budget.refresh < MaxRefresh)
+AskedB == [budget EXCEPT !.refresh = IF disc.first \/ disc.notify # {} THEN @ ELSE Tick(@)]
+
 DiscGrab(c) ==
-  /\ disc.pc = "ask"
+  /\ Due
   /\ pool.idle[0] # << >> /\ c = Last(pool.idle[0])
   /\ pool' = [pool EXCEPT !.idle[0] = Pop(@)]
   /\ conns' = [conns EXCEPT ![c].st = "busy", ![c].cur = <<0, 1>>, ![c].reqq = Append(@, <<0, 1>>)]
-  /\ disc' = [disc EXCEPT !.pc = "sent"]
-  /\ UNCHANGED <<cl, moves, snaps, rq, sent, served, budget>>
+  /\ disc' = [disc EXCEPT !.pc = "sent", !.first = FALSE]
+  /\ budget' = AskedB
+  /\ UNCHANGED <<cl, moves, snaps, rq, sent, served>>
 
 DiscConnect(c) ==
-  /\ disc.pc = "ask" /\ pool.idle[0] = << >>
+  /\ Due /\ pool.idle[0] = << >>
   /\ FreeConn # {} /\ c = NewConn
   /\ conns' = [conns EXCEPT ![c] = [NoConn EXCEPT !.st = "connecting", !.grp = 0, !.cur = <<0, 1>>]]
-  /\ disc' = [disc EXCEPT !.pc = "conn"]
-  /\ UNCHANGED <<cl, moves, snaps, pool, rq, sent, served, budget>>
+  /\ disc' = [disc EXCEPT !.pc = "conn", !.first = FALSE]
+  /\ budget' = AskedB
+  /\ UNCHANGED <<cl, moves, snaps, pool, rq, sent, served>>
+
+\* no bootstrap broker accepts the connection
+DiscConnectRefused ==
+  /\ Due /\ pool.idle[0] = << >> /\ cf.boot \cap cl.alive = {}
+  /\ disc' = [disc EXCEPT !.pc = "got", !.first = FALSE, !.ok = FALSE]
+  /\ budget' = AskedB
+  /\ UNCHANGED <<cl, moves, snaps, pool, conns, rq, sent, served>>
 
 \* connPool.update: a metadata response replaces the snapshot and the connection groups; an error is only
 \* recorded while no snapshot exists; ready is triggered; waiters of a forced refresh are notified
@@ -412,14 +458,8 @@ Update ==
                            ELSE conns[c]]
        ELSE /\ pool' = [pool EXCEPT !.ready = TRUE, !.err = (Latest = pool.base)]
             /\ UNCHANGED <<snaps, conns>>
-  /\ disc' = [NoDisc EXCEPT !.pc = "sleep"]
+  /\ disc' = [NoDisc EXCEPT !.first = FALSE]
   /\ UNCHANGED <<cl, moves, rq, sent, served, budget>>
-
-TTLTick ==
-  /\ disc.pc = "sleep" /\ budget.refresh < MaxRefresh
-  /\ disc' = [disc EXCEPT !.pc = "ask"]
-  /\ budget' = [budget EXCEPT !.refresh = Tick(@)]
-  /\ UNCHANGED <<cl, moves, snaps, pool, conns, rq, sent, served>>
 
 \* the idle timer of a connection fires
 IdleExpire(c) ==
@@ -461,7 +501,7 @@ BrokerAdd(b) ==
 
 \* a broker leaves: what it led or coordinated moves to broker h; its connections are gone
 BrokerRemove(b, h) ==
-  /\ Spend /\ b \in cl.alive /\ h \in cl.alive \ {b} /\ (Boot \cap cl.alive) \ {b} # {}
+  /\ Spend /\ b \in cl.alive /\ h \in cl.alive \ {b} /\ (cf.boot \cap cl.alive) \ {b} # {}
   /\ LET moved == { tp \in TPs : cl.leader[tp] = b } IN
        /\ cl' = [cl EXCEPT !.alive = @ \ {b}, !.ver = @ + 1,
                            !.leader = [tp \in TPs |-> IF tp \in moved THEN h ELSE cl.leader[tp]],
@@ -470,10 +510,11 @@ BrokerRemove(b, h) ==
   /\ conns' = [c \in Conns |-> IF conns[c].peer = b /\ conns[c].st \in {"idle", "busy"} THEN [conns[c] EXCEPT !.peerDown = TRUE] ELSE conns[c]]
   /\ Quiet
 
-TopicCreate(t) ==
+TopicCreateWith(t, f) ==
   /\ Spend /\ t \in Topics \ cl.topics
-  /\ cl' = [cl EXCEPT !.topics = @ \cup {t}, !.ver = @ + 1]
+  /\ cl' = [cl EXCEPT !.topics = @ \cup {t}, !.ver = @ + 1, !.leader = [tp \in TPs |-> IF tp[1] = t THEN f[tp[2]] ELSE @[tp]]]
   /\ Quiet /\ UNCHANGED <<conns, moves>>
+TopicCreate(t) == TopicCreateWith(t, [p \in Parts |-> cl.leader[<<t, p>>]])
 
 CoordinatorMove(which, b) ==
   /\ Spend /\ b \in cl.alive
@@ -493,20 +534,21 @@ Client ==
         \/ \E d \in Menu[r] : Begin(r, d)
         \/ GrabState(r) \/ ServeFromCache(r) \/ AwaitReturn(r) \/ ReturnCancelled(r) \/ Wake(r) \/ RefreshDone(r)
         \/ \E how \in {"cancel", "deadline"} : Cancel(r, how)
-        \/ \E i \in 1 .. 4 : RouteFail(r, i) \/ \E c \in Conns : RouteGrab(r, i, c) \/ RouteConnect(r, i, c)
+        \/ AwaitRefresh(r)
+        \/ \E i \in 1 .. 4 : RouteFail(r, i) \/ RouteConnectRefused(r, i) \/ \E c \in Conns : RouteGrab(r, i, c) \/ RouteConnect(r, i, c)
   \/ \E c \in Conns : \/ ConnectFail(c) \/ Serve(c) \/ Cut(c) \/ ExchangeOK(c) \/ ExchangeFail(c)
                        \/ IdleExpire(c) \/ DiscGrab(c) \/ DiscConnect(c)
                        \/ \E b \in Brokers : ConnectDone(c, b)
-  \/ Update \/ TTLTick \/ CloseIdle
+  \/ Update \/ DiscConnectRefused \/ CloseIdle
 
-Next == Client \/ Env
+Next == (Client \/ Env) /\ UNCHANGED cf
 Spec == Init /\ [][Next]_vars
 
 \* fairness for the liveness configs: everything the library does on its own, and the brokers answering
 Progress ==
   \/ \E c \in Conns : Serve(c) \/ ExchangeOK(c) \/ ExchangeFail(c) \/ DiscGrab(c) \/ DiscConnect(c) \/ ConnectFail(c)
                        \/ \E b \in Brokers : ConnectDone(c, b)
-  \/ Update \/ TTLTick
+  \/ Update \/ DiscConnectRefused
 FairSpec == Spec /\ WF_vars(Progress)
 
 -----------------------------------------------------------------------------
@@ -525,8 +567,8 @@ C12_GrabIsLatest ==
 \* C12: the version on the wire is the highest both sides implement, inside the advertised range
 C12_Version ==
   \A k \in S : LET s == sent[k] IN
-     s.api \in DOMAIN VTab[s.dest] =>
-       LET b == VTab[s.dest][s.api]  c == CRange[s.api] IN
+     (s.dest \in DOMAIN cf.vtab /\ s.api \in DOMAIN cf.vtab[s.dest]) =>
+       LET b == cf.vtab[s.dest][s.api]  c == cf.crange[s.api] IN
        Overlap(c, b) => s.ver = Min(c[2], b[2]) /\ s.ver >= b[1] /\ s.ver <= b[2]
 
 \* C12: requests routed with a snapshot taken after a leader move go to the new leader
@@ -546,7 +588,8 @@ TrueFilter(names, snap) ==
         ELSE [name |-> names[i], err |-> 3, leaders |-> << >>] ]
 \* (that the snapshot is the latest applied when the state was grabbed is C12_GrabIsLatest)
 C12_CacheFilter ==
-  \A k \in DOMAIN served : served[k].topics = TrueFilter(served[k].names, SnapOf(served[k].snap))
+  \A k \in DOMAIN served : served[k].topics = IF served[k].all THEN AllOf(SnapOf(served[k].snap))
+                                                ELSE TrueFilter(served[k].names, SnapOf(served[k].snap))
 
 \* C06 (Transport part)
 C06t_OwnResponse ==
